@@ -30,7 +30,8 @@ OnStep(e) ==
   ELSE IF e.kind = "replay"
   THEN IF e.handled = 1 /\ e.n \in accepted THEN [why |-> "C15:replayed-request-accepted-again", acc |-> accepted]
        \* the captured bytes are genuine: when they were held back in the network this is their first arrival - forgeries in between change nothing
-       ELSE IF e.handled = 0 /\ accepted # {} /\ MustAccept(e.n)
+       \* (with Appendix B.1.2 the very first arrival at a recipient is challenged with 4.01 + Echo instead of being handed over)
+       ELSE IF e.handled = 0 /\ (accepted # {} \/ sent[-2] = 0) /\ MustAccept(e.n)
             THEN [why |-> "C15:delayed-genuine-request-rejected-although-never-accepted-before", acc |-> accepted]
        ELSE [why |-> "", acc |-> IF e.handled = 1 THEN accepted \cup {e.n} ELSE accepted]
   ELSE IF e.kind = "held" THEN [why |-> "", acc |-> accepted]
@@ -43,7 +44,7 @@ Init == /\ l = 1 /\ rej = << >> /\ cur = -1 /\ skip = TRUE /\ accepted = {} /\ s
 Consume ==
   /\ l <= Len(TraceLog)
   /\ LET e == TraceLog[l] IN
-     CASE e.e = "Reset" -> /\ cur' = e.id /\ skip' = FALSE /\ accepted' = {} /\ sent' = [x \in {-1} |-> e.win] /\ stepPivs' = << >>      \* (key -1 carries the replay window size of the execution)
+     CASE e.e = "Reset" -> /\ cur' = e.id /\ skip' = FALSE /\ accepted' = {} /\ sent' = [x \in {-1, -2} |-> IF x = -1 THEN e.win ELSE IF e.b12 THEN 1 ELSE 0] /\ stepPivs' = << >>      \* (key -1 carries the replay window size of the execution)
                            /\ nexec' = nexec + 1 /\ lastSaved' = 0 /\ restartFloor' = 0 /\ nonces' = [x \in {} |-> 0] /\ UNCHANGED <<rej, nsteps>>
        [] e.e = "Piv" /\ ~skip ->
             IF e.piv \in DOMAIN sent /\ sent[e.piv] # e.sig
